@@ -15,9 +15,13 @@
 (*    server remembers it as such or answers the held one and keeps the copy.  *)
 EXTENDS Naturals, FiniteSets
 
-CONSTANT HoldMax
+CONSTANTS HoldMax,
+          Strict     \* TRUE: the queries come from real clients - every tunnel query is a step of the protocol, so "received and
+                     \* not yet answered" means "held back" and the two clauses about holding apply.  FALSE (scripted /
+                     \* hostile peers): a query may be one the server drops without an answer (a DNS-mode data query for a
+                     \* session in raw mode, ...) - only the first sentence of the property is judged
 
-VARIABLES pending,   \* set of [n, src, holder, id, qn, lk, qt, tun, held]; holder = the session the query belongs to
+VARIABLES pending,   \* set of [n, src, holder, uid, id, qn, lk, qt, tun, held]; holder = the session the query belongs to
                      \* (requester address + userid in the query name: one address may speak for several sessions)
           done       \* questions <<lk, qt>> that have been answered at least once (repeats of those - from the same or
                      \* another relay address, the server's memories are keyed by question - are answered from the
@@ -25,8 +29,8 @@ VARIABLES pending,   \* set of [n, src, holder, id, qn, lk, qt, tun, held]; hold
 
 MAInit == pending = {} /\ done = {}
 
-Recv(n, src, holder, id, qn, lk, qt, tun) ==
-    /\ pending' = pending \cup {[n |-> n, src |-> src, holder |-> holder, id |-> id, qn |-> qn, lk |-> lk, qt |-> qt,
+Recv(n, src, holder, uid, id, qn, lk, qt, tun) ==
+    /\ pending' = pending \cup {[n |-> n, src |-> src, holder |-> holder, uid |-> uid, id |-> id, qn |-> qn, lk |-> lk, qt |-> qt,
                                  tun |-> tun, held |-> (<<lk, qt>> \notin done)]}
     /\ UNCHANGED done
 
@@ -40,7 +44,7 @@ Ans(dst, id, qn, lk, qt, hdr) ==
     /\ LET r == CHOOSE x \in ms : \A y \in ms : x.n <= y.n IN
        \* "answering the older one when a newer one arrives": a held tunnel query is not answered while an OLDER
        \* tunnel query with another question from the same address is still held back
-       /\ (hdr /\ r.tun /\ r.held /\ r.id # 0) =>
+       /\ (Strict /\ hdr /\ r.tun /\ r.held /\ r.id # 0) =>
              ~\E o \in pending : /\ o.holder = r.holder /\ o.tun /\ o.held /\ o.id # 0 /\ o.lk # r.lk /\ o.n < r.n
        /\ pending' = {IF x.lk = lk /\ x.qt = qt THEN [x EXCEPT !.held = FALSE] ELSE x
                       : x \in pending \ {r}}
@@ -48,8 +52,13 @@ Ans(dst, id, qn, lk, qt, hdr) ==
 
 HeldNames(s) == {r.lk : r \in {x \in pending : x.holder = s /\ x.held /\ x.tun /\ x.id # 0}}
 
-StepEnd == /\ \A s \in {r.holder : r \in pending} : Cardinality(HeldNames(s)) <= HoldMax
+StepEnd == /\ Strict => \A s \in {r.holder : r \in pending} : Cardinality(HeldNames(s)) <= HoldMax
            /\ UNCHANGED <<pending, done>>
+
+\* the server acknowledged a version request: slot u starts a new session and forgets whatever it held for the old one
+\* (tunnel queries of the old session that were never answered no longer count as held back)
+NewSession(u) == /\ pending' = {x \in pending : ~(x.tun /\ x.uid = u)}
+                 /\ UNCHANGED done
 
 MAReset == pending' = {} /\ done' = {}
 =============================================================================
